@@ -421,7 +421,7 @@ func symConv(i *interpreter, t_dst, t_src types.Type, x value) (value, bool) {
 				copy(out, x)
 				return out, true
 			case types.Rune:
-				var out []value
+				out := []value{}
 				it := &stringIter{i: i, s: x}
 				for {
 					t := it.next()
